@@ -5,7 +5,7 @@ node of every kind — control flow, statement expressions, calls, atomics, allo
 This is the invariant behind `assert(depth == 0)` in `emit_text` and behind the parity that
 `push_args` uses to align the stack at a call.  It needs no semantics of the printed lines (only
 the bookkeeping of the generator), so it reaches all 47 node kinds; the only side condition is
-that struct/union arguments of calls have at least one byte (known finding C20-empty-struct-arg).
+that the sizes of struct/union arguments of calls are not negative.
 -/
 import ChibiVerif.Lemmas.C20Induction
 
@@ -285,8 +285,8 @@ theorem Dep_callRest (env : Env) (i : NInfo) {fn : M Unit} (rb : Option Var) (ar
   · exact (Dep_bind hpop key).cast (by omega)
   · exact (Dep_bind (Dep_of_Sem (Sem_popGp 0)) (fun _ => Dep_bind hpop key)).cast (by omega)
 
-/-- `depth` after a call is `depth` before it, for every argument list whose struct arguments have
-    at least one byte — whatever is inside the arguments and the callee expression -/
+/-- `depth` after a call is `depth` before it, for every argument list whose struct argument sizes are
+    not negative — whatever is inside the arguments and the callee expression -/
 theorem Dep_funcallArm (env : Env) (i : NInfo) {isAlloca : M Bool} {fn : M Unit} (rb : Option Var)
     (args : List Arg) (hia : Dep isAlloca 0) (hfn : Dep fn 0) (hargs : ∀ a ∈ args, Dep a.gen 0)
     (hs : StructArgsOK (args.map (·.ty))) : Dep (funcallArm env i isAlloca fn rb args) 0 := by
